@@ -18,6 +18,10 @@ use std::sync::Arc;
 pub enum Op {
     /// add document template `t`
     Add(u8),
+    /// add template `t` with its absent optional fields left OUT of the
+    /// document (what `skip_serializing_if = "Option::is_none"` produces)
+    /// instead of stored as explicit nulls
+    AddSparse(u8),
     /// add a document missing a required field (schema violation)
     AddInvalid,
     /// update document `id` with update template `u`
@@ -347,6 +351,24 @@ pub async fn exec_on(coll: &Collection, op: &Op) -> Option<Outcome> {
             Ok(id) => Outcome::Id(id),
             Err(e) => Outcome::Err(classify(&e)),
         },
+        Op::AddSparse(t) => {
+            let v = template(*t);
+            let mut doc = match Document::try_from(coll.schema(), &v) {
+                Ok(d) => d,
+                Err(e) => return Some(Outcome::Err(ErrClass::Other(format!("{e:?}")))),
+            };
+            if v.opt.is_none() {
+                doc.remove_field("opt");
+            }
+            if v.opt2.is_none() {
+                doc.remove_field("opt2");
+            }
+            doc.set_id(0);
+            match coll.add(doc).await {
+                Ok(id) => Outcome::Id(id),
+                Err(e) => Outcome::Err(classify(&e)),
+            }
+        }
         Op::AddInvalid => {
             let mut doc: Document = coll.new_document();
             doc.set_id(0);
@@ -455,7 +477,7 @@ impl SeqModel {
     /// (for `Add` the id is filled in by `commit_add`).
     pub fn expect(&self, op: &Op, idx: Idx) -> Expect {
         match op {
-            Op::Add(t) => {
+            Op::Add(t) | Op::AddSparse(t) => {
                 if self.unique_conflict(&template(*t), None, idx) {
                     Expect::Rejected(vec!["AlreadyExists", "Other"])
                 } else {
@@ -507,7 +529,7 @@ impl SeqModel {
     /// the outcome was accepted by `check_outcome`.
     pub fn apply(&mut self, op: &Op, out: &Outcome) {
         match (op, out) {
-            (Op::Add(t), Outcome::Id(id)) => {
+            (Op::Add(t), Outcome::Id(id)) | (Op::AddSparse(t), Outcome::Id(id)) => {
                 let mut d = template(*t);
                 d._id = *id;
                 self.docs.docs.insert(*id, d);
